@@ -234,6 +234,13 @@ def getObjectPath (e : Env) (bucket key : Bytes) : Except Err Bytes :=
     | some true => resolveAbsPath e (join dir key)
     | _ => .error .invalidArgument
 
+/-- the clause `name.as_bytes().first().map(|&b| b.is_ascii_lowercase() || b.is_ascii_digit()) == Some(true)` of
+    `s3s::path::check_bucket_name` (crates/s3s/src/path.rs): every bucket name that arrives over HTTP satisfies it -/
+def bucketNameFirstOk (name : Bytes) : Bool :=
+  match name.head? with
+  | some c => (97 ≤ c && c ≤ 122) || (48 ≤ c && c ≤ 57)
+  | none => false
+
 /-! ### bookkeeping names (all relative, single component) -/
 
 def sBucket : Bytes := [46, 98, 117, 99, 107, 101, 116, 45]                       -- ".bucket-"
